@@ -15,7 +15,7 @@ if src.count(old) > 1:
 try:
     open(path, "w").write(src.replace(old, new, 1))
     if tests:
-        r = subprocess.run("cd /repo && /venv/bin/python -m pytest -q -p no:cacheprovider -x -q 2>&1 | tail -3", shell=True, capture_output=True, text=True)
+        r = subprocess.run("cd /repo && /venv/bin/python -m pytest -q -p no:cacheprovider 2>&1 | tail -1", shell=True, capture_output=True, text=True)
         print("TESTS:", r.stdout.strip().splitlines()[-1:])
     for i in ids:
         r = subprocess.run(["/verif/check", i], capture_output=True, text=True)
